@@ -946,21 +946,27 @@ class KafkaClient(object):
             if close_dlist == self.close_dlist:
                 self.close_dlist = None
 
+        # Register this batch before closing anything: closing a broker client fails
+        # its pending requests at once, and one of their callbacks may call close(),
+        # whose Deferred has to wait for the connections being closed here as well.
+        batch = defer.Deferred()
         if not self.close_dlist:
-            dList = []
+            dList = [batch]
         else:
             log.debug(
                 "%r: _close_brokerclients has nested deferredlist: %r",
                 self,
                 self.close_dlist,
             )
-            dList = [self.close_dlist]
+            dList = [self.close_dlist, batch]
+        self.close_dlist = close_dlist = DeferredList(dList)
+        close_dlist.addBoth(_clean_close_dlist, close_dlist)
+        closes = []
         for brokerClient in clients:
             log.debug("Calling close on: %r", brokerClient)
             d = brokerClient.close().addErrback(_log_close_failure, brokerClient)
-            dList.append(d)
-        self.close_dlist = DeferredList(dList)
-        self.close_dlist.addBoth(_clean_close_dlist, self.close_dlist)
+            closes.append(d)
+        DeferredList(closes).addBoth(lambda _: batch.callback(None))
 
     def _update_brokers(self, brokers, remove=False):
         """
